@@ -8,6 +8,7 @@ import (
 	"reflect"
 	"strings"
 	"sync"
+	"time"
 
 	"github.com/samsarahq/thunder/graphql"
 	"github.com/samsarahq/thunder/reactive"
@@ -172,12 +173,11 @@ func body(c *runner.Ctx, faults bool) {
 		}
 		c.Describe("fault plan: %v", w.fail)
 	}
-	var wg sync.WaitGroup
+	finished := 0
 	for _, ex := range execs {
 		ex := ex
-		wg.Add(1)
 		go func() {
-			defer wg.Done()
+			defer func() { finished++ }()
 			q, err := graphql.Parse(ex.text, nil)
 			if err != nil {
 				ex.rejected = err
@@ -206,18 +206,18 @@ func body(c *runner.Ctx, faults bool) {
 			simrt.Logf("exec %d start", ex.idx)
 			if ex.rerunner {
 				c.Probe("execution-inside-rerunner")
-				finished := make(chan struct{})
+				ran := make(chan struct{})
 				first := true
 				rr := reactive.NewRerunner(ctx, func(ctx context.Context) (interface{}, error) {
 					if !first {
 						return nil, errors.New("one-shot")
 					}
 					first = false
-					defer close(finished)
+					defer close(ran)
 					ex.val, ex.err = graphql.NewExecutor(sched).Execute(ctx, schema.Query, nil, q)
 					return nil, errors.New("one-shot")
 				}, graphql.DefaultMinRerunInterval, false)
-				<-finished
+				<-ran
 				rr.Stop()
 			} else {
 				ex.val, ex.err = graphql.NewExecutor(sched).Execute(ctx, schema.Query, nil, q)
@@ -226,7 +226,11 @@ func body(c *runner.Ctx, faults bool) {
 			simrt.Logf("exec %d end err=%v", ex.idx, ex.err)
 		}()
 	}
-	wg.Wait()
+	// never wait unboundedly on the system under test: poll with a horizon of
+	// ten simulated minutes (resolver latencies are milliseconds)
+	for i := 0; i < 600 && finished < len(execs); i++ {
+		simrt.Sleep(time.Second)
+	}
 
 	for _, ex := range execs {
 		if ex.rejected != nil {
@@ -235,7 +239,7 @@ func body(c *runner.Ctx, faults bool) {
 			continue
 		}
 		if !ex.done {
-			c.Violate("execute-never-returned", "Execute did not return: %s", ex.text)
+			c.Violate("execute-never-returned", "Execute did not return within ten simulated minutes [scheduler %s, in rerunner %v]: %s", ex.sched, ex.rerunner, ex.text)
 			continue
 		}
 		ev := &evaluator{w: w}
